@@ -37,7 +37,7 @@ const (
 
 func init() {
 	register("C10", "other", "T8 DecisionTable with value provenance (objects, not text), T4 GuardedBy with the linear normaliser, T2/T3 path rules, T6 WhoMayWrite, T17 Iteration view of loops, T19 ReachingDefs (tested frames), inlined views of ProcessRoot / chooseAtropos / notDecidedRoots / calcFrameIdx (helpers of the package are seen through, error tests threaded per return site)",
-		"Decides ONLY the rule constants of the election, i.e. the vote-rule table the property spells out; equivalence of the emitted blocks with an independent reference implementation needs execution and is NOT decided, nor is forkless-cause (vecfc, C05); of the frame rule only the frames that calcFrameIdx tests are decided (C10.frame: by reaching definitions, every frame handed to forklessCausedByQuorumOn is the self-parent's frame or the previously tested frame plus one on the edge where that test held; the rest of the frame rule is C04; C10.slots: the roots of a frame that the frame rule and the election read through Store.GetFrameRoots contain a multi-frame root in each of its frames — every iteration of Store.AddRoot's slot loop, which runs from selfParentFrame+1 while frame <= root.Frame(), writes the roots table and looks up the cached list of the iteration's own frame, storing it back on a hit; the content of the record and of the list is C33/C01). Loops are taken as iterations (range, or counted from 0 with C[i], the bound possibly defined next to the index), loop membership is decided on the CFG, and the four functions are analysed as inlined views: any part of their work may live in helper functions of the package (vote computation per round, counting, lookups, stores, predicates; the vote under construction may be a helper's local that is copied into the stored variable), a helper's error return followed by the caller's `if err != nil { return … }` counts as the error exit it is; observedRoots/observedRootsMap may use a higher-order 'for each observed root' helper. Decided: round = root frame - frame to decide, older roots do not vote; round 1: yes is exactly the comma-ok of looking the subject up in the map of previous-frame roots that observe(newRoot, ·) accepts (keyed by their validator), such a vote never decides; later rounds: each vote of a previous-frame root that the new root observes is looked up for (that root, this subject) and counted with the voter's validator on the yes counter on the vote.yes edge and on the no counter on the other edge, the counters being fresh per subject; the new vote is yes >= no of those two counters' sums (normalised: a tie is yes), computed after all observed roots were counted and only if all counted votes reach quorum (otherwise error, as for a missing or double vote); decided is yesCounter.HasQuorum() OR noCounter.HasQuorum(); a vote enters decidedRoots exactly on the decided edge, under its subject; every subject's vote is stored under (new root, subject); chooseAtropos walks SortedIDs(), returns a root only on the decided-and-yes edge (Atropos = that vote's observed root, Frame = frameToDecide), continues only on the decided-and-no edge, returns (nil, nil) at the first undecided validator and an error when all are decided no.",
+		"Decides ONLY the rule constants of the election, i.e. the vote-rule table the property spells out; equivalence of the emitted blocks with an independent reference implementation needs execution and is NOT decided, nor is forkless-cause (vecfc, C05); of the frame rule only the frames that calcFrameIdx tests are decided (C10.frame: by reaching definitions, every frame handed to forklessCausedByQuorumOn is the self-parent's frame or the previously tested frame plus one on the edge where that test held; the rest of the frame rule is C04; C10.slots: the roots of a frame that the frame rule and the election read through Store.GetFrameRoots contain a multi-frame root in each of its frames — every iteration of Store.AddRoot's slot loop, which runs from selfParentFrame+1 while frame <= root.Frame(), writes the roots table and looks up the cached list of the iteration's own frame, storing it back on a hit; the content of the record and of the list is C33/C01). Loops are taken as iterations (range, or counted from 0 with C[i], the bound possibly defined next to the index), loop membership is decided on the CFG, and the four functions are analysed as inlined views: any part of their work may live in helper functions of the package (vote computation per round, counting, lookups, stores, predicates; the vote under construction may be a helper's local that is copied into the stored variable), a helper's error return followed by the caller's `if err != nil { return … }` counts as the error exit it is; observedRoots/observedRootsMap may use a higher-order 'for each observed root' helper; a vote counter is a storage cell — a local variable or a member of a local record that groups the counters, built once by a composite literal and never reassigned; the frame search is located by its effect (the functions that call forklessCausedByQuorumOn) and, when the searching function receives the self-parent's frame from its callers, decided in the views of those callers; in AddRoot the frame of an iteration may be read back from a local record built from the loop variable, and a helper's comma-ok result that is constant false exactly after a cache miss relays the miss. Decided: round = root frame - frame to decide, older roots do not vote; round 1: yes is exactly the comma-ok of looking the subject up in the map of previous-frame roots that observe(newRoot, ·) accepts (keyed by their validator), such a vote never decides; later rounds: each vote of a previous-frame root that the new root observes is looked up for (that root, this subject) and counted with the voter's validator on the yes counter on the vote.yes edge and on the no counter on the other edge, the counters being fresh per subject; the new vote is yes >= no of those two counters' sums (normalised: a tie is yes), computed after all observed roots were counted and only if all counted votes reach quorum (otherwise error, as for a missing or double vote); decided is yesCounter.HasQuorum() OR noCounter.HasQuorum(); a vote enters decidedRoots exactly on the decided edge, under its subject; every subject's vote is stored under (new root, subject); chooseAtropos walks SortedIDs(), returns a root only on the decided-and-yes edge (Atropos = that vote's observed root, Frame = frameToDecide), continues only on the decided-and-no edge, returns (nil, nil) at the first undecided validator and an error when all are decided no.",
 		[]string{"pos.WeightCounter.Count adds the weight of the validator passed, once (C11)", "Validators.SortedIDs is the canonical order (C12)", "observe/getFrameRoots are the forkless-cause and root-registry callbacks (C05, C33)"},
 		runC10)
 }
@@ -500,7 +500,7 @@ func runC10(c *core.Ctx) {
 		var order []*types.Var
 		yesT, yesF := c10FieldOf(pr, x.prev.Val, c10YesF, true), c10FieldOf(pr, x.prev.Val, c10YesF, false)
 		for _, call := range pr.CallsTo(c10Count) {
-			cv := varOf(pr, call.Recv())
+			cv := c10Cell(pr, call.Recv())
 			if cv == nil {
 				c.Undecided("Count on a non-variable counter", "T8 provenance", call.Pos(), "cannot attribute this Count call to a counter variable")
 				continue
@@ -562,13 +562,13 @@ func runC10(c *core.Ctx) {
 			c.Check(k.badWeight == nil, r.role+" counts the voter's validator", "T8 provenance", pos,
 				"Count receives the observed root's Slot.Validator (the voter's weight), for a vote that exists",
 				"a vote is weighted with a validator other than the voting root's own (or counted although no vote was found): the weighted majority is wrong")
-			rhs, d := c15SingleDef(pr, r.v)
+			rhs, defPt, okDef := c10CellDef(pr, r.v)
 			call := isCallTo(pr, rhs, c10NewCnt)
-			okF := call != nil && !seenCalls[rhs]
+			okF := okDef && call != nil && !seenCalls[rhs]
 			if okF {
 				seenCalls[rhs] = true
 				sel, _ := ast.Unparen(call.Fun).(*ast.SelectorExpr)
-				okF = sel != nil && fieldNameOf(pr, sel.X) == c10ValsF && c10LoopOfPoint(pr, d.A.Pt) == x.subjLoop
+				okF = sel != nil && fieldNameOf(pr, sel.X) == c10ValsF && c10LoopOfPoint(pr, defPt) == x.subjLoop
 			}
 			c.Check(okF, r.role+" is fresh per subject", "T8 provenance", pos,
 				"the counter is el.validators.NewCounter() created inside the subject loop, outside the voter loop",
@@ -613,7 +613,7 @@ func runC10(c *core.Ctx) {
 		namer := func(e ast.Expr) string {
 			if call := isCallTo(pr, e, c10Sum); call != nil {
 				if sel, ok := ast.Unparen(call.Fun).(*ast.SelectorExpr); ok {
-					switch varOf(pr, sel.X) {
+					switch c10Cell(pr, sel.X) {
 					case x.yesC:
 						return "yes"
 					case x.noC:
@@ -653,7 +653,7 @@ func runC10(c *core.Ctx) {
 				return false
 			}
 			sel, ok := ast.Unparen(call.Fun).(*ast.SelectorExpr)
-			return ok && varOf(pr, sel.X) == x.allC
+			return ok && c10Cell(pr, sel.X) == x.allC
 		})
 		okQ, wit := pr.GuardedBy(a.Pt, quorum)
 		if okQ && pr.CanReach(a.Pt, a.Pt) {
@@ -691,7 +691,7 @@ func runC10(c *core.Ctx) {
 				continue
 			}
 			if sel, ok := ast.Unparen(call.Fun).(*ast.SelectorExpr); ok {
-				seen[varOf(pr, sel.X)] = true
+				seen[c10Cell(pr, sel.X)] = true
 			}
 		}
 		okD = okD && seen[x.yesC] && seen[x.noC] && len(seen) == 2
